@@ -668,3 +668,114 @@ def session_stability(ctx, chk, rule, entries=None):
     chk.require(n >= 6, f'expected >= 6 Container methods that use the operation session, found {n}')
     if not bad:
         chk.ok(rule, cont.qualname, f'{n} method(s) using the operation session', detail='no use of a session local after the cached session was reset (helpers called in between included, inlined to depth 3)', evals=n)
+
+
+def loose_write_ownership(ctx, chk, rule, why='loose objects must only appear by atomic rename of a complete sandbox file'):
+    """Ownership scan over every function of the package: nobody opens a path under loose/ for writing or writes one in place."""
+    prog, K = ctx.prog, ctx.kinds
+    nscan = 0
+    nbad = 0
+    for f in prog.all_functions():
+        if isinstance(f.node, ast.Lambda):
+            continue
+        fr = K.top_frame(f)
+        for n in walk_local(f.node):
+            if not isinstance(n, ast.Call):
+                continue
+            cal = K.resolve_call(n, fr)
+            if cal.kind == 'external' and cal.target in ('builtins.open', 'io.open'):
+                hk = K.kind(n, fr)
+                nscan += 1
+                if hk[0] == 'handle' and any(c in (hk[2] or '') for c in 'wax+') and ('loose' in areas(K, hk[1])):
+                    nbad += 1
+                    chk.bad(rule, f.qualname, norm(n), 'a file under loose/ is opened for writing: ' + why, where=f'{f.module.relpath}:{n.lineno}')
+            elif cal.kind == 'method' and cal.name in ('write_bytes', 'write_text', 'touch', 'open'):
+                rk = K.kind(cal.recv, fr)
+                if 'loose' in areas(K, rk) and (cal.name != 'open' or any(c in str(K.kind(n, fr)[2:3]) for c in 'wax+')):
+                    nbad += 1
+                    chk.bad(rule, f.qualname, norm(n), 'a file under loose/ is written in place: ' + why, where=f'{f.module.relpath}:{n.lineno}')
+            elif cal.kind == 'external' and cal.target in ('shutil.copy', 'shutil.copyfile', 'shutil.copy2', 'shutil.move') and len(n.args) >= 2:
+                dk = K.kind(n.args[1], fr)
+                if 'loose' in areas(K, dk):
+                    nbad += 1
+                    chk.bad(rule, f.qualname, norm(n), 'a file under loose/ is filled in place by a copy: ' + why, where=f'{f.module.relpath}:{n.lineno}')
+    chk.require(nscan >= 10, f'expected at least 10 open() sites in the package, found {nscan}')
+    if not nbad:
+        chk.ok(rule, '<package>', f'{nscan} open() sites classified', detail='none opens a path under loose/ for writing', evals=nscan)
+    return nbad
+
+
+def pack_writing_entries(ctx, S=None):
+    """Container methods that take `do_fsync` and (transitively) stage index rows: the entry points of the pack writers.  A method that merely
+    carries a `do_fsync` flag for the loose path (no INSERT reachable) is not one of them."""
+    S = S or Summaries(ctx)
+    out = []
+    for f in ctx.prog.all_functions():
+        if f.cls is not ctx.kinds.container or 'do_fsync' not in f.params or isinstance(f.node, ast.Lambda):
+            continue
+        reach = reachable_functions(ctx, S, f)
+        if any(e[0] == 'DB_INSERT' for g in reach.values() for n, cal, effs in S.calls(g) for e in effs):
+            out.append(f.qualname)
+    return sorted(out)
+
+
+def session_lifecycle(ctx, chk, rule):
+    """Premise of every "refresh the session" rule: dropping the cached operation session really ends its transaction, and the next one is a new
+    session on the index.  (a) the only non-None value ever stored in `_operation_session` is the result of database.get_session(index path);
+    (b) in `_close_operation_session` the session's close() sits on every path to the `= None` (guarded only by the `is not None` test)."""
+    prog, K = ctx.prog, ctx.kinds
+    cont = K.container
+    news, resets = [], []
+    for f in prog.all_functions():
+        if isinstance(f.node, ast.Lambda) or f.cls is not cont:
+            continue
+        for n in walk_local(f.node):
+            if isinstance(n, (ast.Assign, ast.AnnAssign)):
+                tgts = n.targets if isinstance(n, ast.Assign) else [n.target]
+                for t in tgts:
+                    for tt in (t.elts if isinstance(t, (ast.Tuple, ast.List)) else [t]):
+                        if isinstance(tt, ast.Attribute) and tt.attr == '_operation_session':
+                            v = n.value
+                            if isinstance(v, ast.Constant) and v.value is None:
+                                resets.append((f, n))
+                            elif v is not None:
+                                news.append((f, n))
+            elif isinstance(n, ast.Call) and norm(n.func) == 'setattr' and n.args and isinstance(n.args[1] if len(n.args) > 1 else None, ast.Constant) and n.args[1].value == '_operation_session':
+                news.append((f, n))
+    chk.require(news and resets, 'no assignment of the cached operation session found')
+    bad = False
+    for f, n in news:
+        v = getattr(n, 'value', None)
+        ok = False
+        if isinstance(v, ast.Call):
+            cal = K.resolve_call(v, K.top_frame(f))
+            ok = cal.kind == 'internal' and cal.target.qualname == 'database:get_session' and v.args and 'index' in areas(K, K.kind(v.args[0], K.top_frame(f)))
+        if not ok:
+            bad = True
+            chk.bad(rule, f.qualname, norm(n)[:100], 'the cached operation session is bound to something other than a new session from get_session(<index path>): if it aliases a longer-lived session '
+                    '(e.g. the one kept from init_container), "close and re-open" returns the same connection with the same pinned snapshot, and objects packed and cleaned through another handle stay invisible',
+                    where=f'{f.module.relpath}:{n.lineno}')
+    for f, n in resets:
+        if f.name == '__init__':
+            continue  # initialisation of the attribute: nothing to close yet
+        closes = [c for c in walk_local(f.node) if isinstance(c, ast.Call) and isinstance(c.func, ast.Attribute) and c.func.attr == 'close' and norm(c.func.value).endswith('_operation_session')]
+        dom = False
+        for c in closes:
+            st = c
+            while not isinstance(st, ast.stmt):
+                st = st._parent
+            # st must be a direct member of a block that also (transitively) contains n, earlier in that block
+            blk_owner = st._parent
+            for field in ('body', 'orelse', 'finalbody'):
+                blk = getattr(blk_owner, field, None)
+                if isinstance(blk, list) and st in blk:
+                    i = blk.index(st)
+                    for later in blk[i + 1:]:
+                        if later is n or any(x is n for x in ast.walk(later)):
+                            dom = True
+        if not dom:
+            bad = True
+            chk.bad(rule, f.qualname, norm(n), 'the cached operation session is dropped without being closed on every path: its read transaction (and pinned snapshot / write lock) lives on in the orphaned object',
+                    where=f'{f.module.relpath}:{n.lineno}')
+    if not bad:
+        chk.ok(rule, cont.qualname, f'{len(news)} binding(s), {len(resets)} reset(s) of the cached session', detail='bound only to get_session(index path); closed before every reset')
